@@ -94,6 +94,14 @@ def mutations(plain, tier, rnd):
                 continue
             par[p[-1]] = copy.deepcopy(t)
             yield 'type:%s=%r' % ('/'.join(map(str, p)), t), json.dumps(a, ensure_ascii=False).encode('utf-8'), True
+    for p in ps:
+        a = copy.deepcopy(base)
+        par = get_parent(a, p)
+        if type(par[p[-1]]) is int:
+            for val, lab in ((float(par[p[-1]]), 'integral-float'), (str(par[p[-1]]), 'numeric-string'), (bool(par[p[-1]]), 'bool')):
+                a = copy.deepcopy(base)
+                get_parent(a, p)[p[-1]] = val
+                yield 'type:%s=%s' % ('/'.join(map(str, p)), lab), json.dumps(a, ensure_ascii=False).encode('utf-8'), True
     for mi in range(len(base['matches'])):
         for field in (('offset',), ('length',), ('context', 'offset'), ('context', 'length')):
             for v in PERT:
